@@ -35,6 +35,7 @@ import (
 	"github.com/semihalev/sdns/middleware/as112"
 	"github.com/semihalev/sdns/middleware/cache"
 	"github.com/semihalev/sdns/middleware/edns"
+	"github.com/semihalev/sdns/middleware/ratelimit"
 	"github.com/semihalev/sdns/middleware/recovery"
 	"github.com/semihalev/sdns/server"
 )
@@ -331,6 +332,30 @@ func ruleTags(q aQ, r aR, proto string, reply *dns.Msg) string {
 		return ""
 	}
 	return "nt," + strings.Join(t, ",")
+}
+
+// rlFacts: what the rate limiter remembers after q1 (a server cookie, if q1 was
+// an EDNS(0) query with a client cookie) and whether q2's cookie option is
+// exactly that one.
+func rlFacts(q1, q2 aQ, secret string) (known, same bool) {
+	var remembered []byte
+	if q1.opt.present && q1.opt.ver == 0 && q1.opcode == 0 {
+		for _, o := range q1.opt.opts {
+			if o.code == optCookie && len(o.data) >= 8 {
+				remembered = serverCookieFor(clientIP, o.data[:8], secret)
+				break
+			}
+		}
+	}
+	if remembered == nil {
+		return false, false
+	}
+	for _, o := range q2.opt.opts {
+		if o.code == optCookie && len(o.data) >= 8 {
+			return true, string(o.data) == string(remembered)
+		}
+	}
+	return true, false
 }
 
 // sortOptions orders the option list of a rendered reply.
@@ -730,6 +755,65 @@ func exec(op string) vlib.Res {
 		}
 		if q.qclass > 1 {
 			tags += ",class-not-in"
+		}
+		return vlib.Res{Impl: impl, Oracle: or, Tags: tags}
+
+	case "edns ratelimit":
+		// the REAL rate limiter ahead of the real recovery+edns: Q1 lets it remember a
+		// cookie for this client (or not), Q2 is the query whose reply is compared
+		path, proto, ks := f[2], f[3], f[4]
+		q1, q2, r := parseQ(f[5]), parseQ(f[6]), parseR(f[7])
+		rcfg := curCfg.config()
+		rcfg.ClientRateLimit = 100000
+		rl := ratelimit.New(rcfg)
+		known, same := rlFacts(q1, q2, curCfg.deploy().secret)
+		if ks != fmt.Sprintf("k=%s,s=%s", vlib.B(known), vlib.B(same)) {
+			return vlib.Res{Impl: "bad-facts"}
+		}
+		var w *capW
+		var st *scripted
+		var orig *dns.Msg
+		for i, q := range []aQ{q1, q2} {
+			raw := rawQuery(q)
+			orig = new(dns.Msg)
+			if err := orig.Unpack(raw); err != nil {
+				return vlib.Res{Impl: "undecodable"}
+			}
+			w = newCapW(proto)
+			st = &scripted{r: r, q: q}
+			if i == 0 {
+				st.r = parseR(plainR)
+			}
+			ch := middleware.NewChain([]middleware.Handler{recovery.New(rcfg), rl, curEDNS, st})
+			var rq middleware.Request
+			if path == "w" && rq.ParseWire(raw, time.Now(), nil) {
+				ch.ResetWire(w, &rq)
+			} else {
+				req := new(dns.Msg)
+				_ = req.Unpack(raw)
+				ch.Reset(w, req)
+			}
+			ch.Next(context.Background())
+			ch.Finish()
+		}
+		if st.lensBad != "" {
+			return vlib.Res{Impl: st.lensBad}
+		}
+		raw2 := rawQuery(q2)
+		impl := curCfg.ctx().absReply(w.msg, orig)
+		or := "-"
+		tags := "nt,ratelimit"
+		if w.msg != nil {
+			if w.msg.Rcode == dns.RcodeBadCookie {
+				tags += ",badcookie"
+			}
+			if packed, err := packReply(w.msg); err == nil {
+				jp := map[string]string{"doq": "doq-noid"}[proto]
+				if jp == "" {
+					jp = proto
+				}
+				or = judgeHinted("edns/ratelimit-"+proto, entryKind{proto: jp}, curCfg.deploy(), raw2, packed, r)
+			}
 		}
 		return vlib.Res{Impl: impl, Oracle: or, Tags: tags}
 
